@@ -737,3 +737,82 @@ Proof.
   apply new_frame_wf; [vm_compute; reflexivity|]. apply Forall_forall. intros x Hx. apply repeat_spec in Hx. subst. reflexivity.
 Qed.
 
+
+(* ================= the classification of all two-byte headers, spelled out ================= *)
+Lemma skipn_skipn_add {A} (a b : nat) (l : list A) : skipn a (skipn b l) = skipn (a + b) l.
+Proof.
+  revert l. induction b as [|b IH]; intro l; [now rewrite Nat.add_0_r|].
+  destruct l as [|x l]; [now rewrite !skipn_nil|]. rewrite Nat.add_succ_r. cbn [skipn]. apply IH.
+Qed.
+
+Lemma take_exact_lt n l : blen l < n -> take_exact n l = None.
+Proof. apply take_exact_none. Qed.
+
+Lemma take_exact_ge n l : n <= blen l -> take_exact n l = Some (firstn (N.to_nat n) l, skipn (N.to_nat n) l).
+Proof. intro H. unfold take_exact. destruct (N.ltb_spec (blen l) n); [lia|reflexivity]. Qed.
+
+Lemma parse_spec_classes h0 h1 rem :
+  let len7 := h1 mod 128 in
+  let extn := if len7 =? 126 then 2 else if len7 =? 127 then 8 else 0 in
+  let keyn := if 128 <=? h1 then 4 else 0 in
+  let n := if extn =? 0 then len7 else unsigned_be (firstn (N.to_nat extn) rem) in
+  match opcode_of_value (h0 mod 16) with
+  | None => parse_spec (h0 :: h1 :: rem) = Err InvalidOpcode
+  | Some op =>
+    if blen rem <? extn + keyn + n then parse_spec (h0 :: h1 :: rem) = Err ReadError
+    else parse_spec (h0 :: h1 :: rem) =
+         Ok (mkFrame (128 <=? h0) (64 <=? h0 mod 128) (32 <=? h0 mod 64) (16 <=? h0 mod 32) op (128 <=? h1) n
+                     (if 128 <=? h1 then key_of_list (firstn 4 (skipn (N.to_nat extn) rem)) else zero_key)
+                     (unmask (if 128 <=? h1 then key_of_list (firstn 4 (skipn (N.to_nat extn) rem)) else zero_key)
+                             (firstn (N.to_nat n) (skipn (N.to_nat (extn + keyn)) rem))),
+             skipn (N.to_nat (extn + keyn + n)) rem)
+  end.
+Proof.
+  intros len7 extn keyn n. cbn [parse_spec]. destruct (opcode_of_value (h0 mod 16)) as [op|]; [|reflexivity].
+  fold len7. fold extn. replace (if 128 <=? h1 then 4 else 0) with keyn by reflexivity.
+  destruct (N.ltb_spec (blen rem) (extn + keyn + n)) as [L|L].
+  - (* not enough bytes: one of the three reads fails *)
+    destruct (N.ltb_spec (blen rem) extn) as [L1|L1]; [now rewrite (take_exact_lt _ _ L1)|].
+    rewrite (take_exact_ge _ _ L1). fold n.
+    destruct (N.ltb_spec (blen (skipn (N.to_nat extn) rem)) keyn) as [L2|L2]; [now rewrite (take_exact_lt _ _ L2)|].
+    rewrite (take_exact_ge _ _ L2).
+    rewrite take_exact_lt; [reflexivity|]. rewrite !blen_skipn in *. lia.
+  - assert (L1 : extn <= blen rem) by lia. rewrite (take_exact_ge _ _ L1). fold n.
+    assert (L2 : keyn <= blen (skipn (N.to_nat extn) rem)) by (rewrite blen_skipn; lia).
+    rewrite (take_exact_ge _ _ L2).
+    rewrite take_exact_ge by (rewrite !blen_skipn; lia).
+    rewrite !skipn_skipn_add.
+    replace (N.to_nat keyn + N.to_nat extn)%nat with (N.to_nat (extn + keyn)) by lia.
+    replace (N.to_nat n + N.to_nat (extn + keyn))%nat with (N.to_nat (extn + keyn + n)) by lia.
+    unfold keyn at 1 2. destruct (128 <=? h1); reflexivity.
+Qed.
+
+Theorem header_classes h0 h1 rem cs :
+  h0 < 256 -> h1 < 256 -> wf_chunks cs -> concat cs = h0 :: h1 :: rem ->
+  let len7 := h1 mod 128 in
+  let extn := if len7 =? 126 then 2 else if len7 =? 127 then 8 else 0 in
+  let keyn := if 128 <=? h1 then 4 else 0 in
+  let n := if extn =? 0 then len7 else unsigned_be (firstn (N.to_nat extn) rem) in
+  let key := if 128 <=? h1 then key_of_list (firstn 4 (skipn (N.to_nat extn) rem)) else zero_key in
+  (In (h0 mod 16) reserved_opcodes /\ decode cs = Err InvalidOpcode) \/
+  (exists op, rfc_opcode op = h0 mod 16 /\
+     ((blen rem < extn + keyn + n /\ decode cs = Err ReadError) \/
+      (extn + keyn + n <= blen rem /\
+       exists cs', decode cs =
+                   Ok (mkFrame (128 <=? h0) (64 <=? h0 mod 128) (32 <=? h0 mod 64) (16 <=? h0 mod 32) op (128 <=? h1) n key
+                               (unmask key (firstn (N.to_nat n) (skipn (N.to_nat (extn + keyn)) rem))), cs')
+                   /\ concat cs' = skipn (N.to_nat (extn + keyn + n)) rem /\ wf_chunks cs'))).
+Proof.
+  intros H0 H1 W Hc len7 extn keyn n key.
+  pose proof (two_byte_headers h0 h1 rem cs H0 H1 W Hc) as R.
+  pose proof (parse_spec_classes h0 h1 rem) as P. cbv zeta in P. fold len7 in P. fold extn in P. fold keyn in P.
+  fold n in P. fold key in P.
+  destruct (opcode_of_value (h0 mod 16)) as [op|] eqn:Eo.
+  - right. exists op. split; [now apply opcode_of_value_some|].
+    destruct (N.ltb_spec (blen rem) (extn + keyn + n)) as [L|L].
+    + left. split; [assumption|]. rewrite P in R. now apply refines_err.
+    + right. split; [assumption|]. rewrite P in R. now apply refines_ok.
+  - left. split.
+    + apply opcode_of_value_none; [apply N.mod_lt; lia|assumption].
+    + rewrite P in R. now apply refines_err.
+Qed.
